@@ -24,8 +24,9 @@ import warnings
 
 DRIVER = "C05"
 RULE = ("programs: elementwise/reduction chains (<=3 ops, 1-3 dims, sizes<=20, optimizer on/off), multi-output ops "
-        "(unstack, qr), rechunks (1-3 dims, sizes<=40, both planners, budgets 6x..1000x the largest chunk and explicit "
-        "min_mem to force 1-4 stages), stores into new / existing arrays of equal, coarser, finer and sharded chunking "
+        "(unstack, qr), rechunks (1-3 dims, sizes<=60, both planners, budgets 5.2x..1000x the largest chunk and explicit "
+        "min_mem to force 1-5 stages; patterns: general, thin strips spanning an axis, strips that neither span nor divide "
+        "the axis), plus a plan-level sample of regular plans (no execution) whose every stage is checked, stores into new / existing arrays of equal, coarser, finer and sharded chunking "
         "(lazy and materialised sources, store and to_zarr), region stores (aligned / unaligned regions, equal and "
         "different source chunking, None / negative / beyond-the-end bounds, steps None/1/2/3/-1); task order forward/reverse/shuffled.  non-trivial = more than one "
         "task writes the array or a task writes more than one stored chunk; distinct by case description. "
@@ -136,20 +137,28 @@ def gen_rechunk(rng):
     hi = 40 if nd <= 2 else 10
     shape = gen_shape(rng, nd, hi)
     r = rng.random()
-    thin = nd == 2 and r < 0.45
-    if thin:      # the classic transposition of long thin chunks: needs several stages under a small budget
+    pattern = "general"
+    if nd == 2 and r < 0.3:       # transposition of long thin chunks that span an axis: several stages under a small budget
+        pattern = "thin"
         shape = [rng.randint(8, 48), rng.randint(8, 48)]
         a, b = rng.randint(1, 2), rng.randint(1, 2)
         src, tgt = [shape[0], a], [b, shape[1]]
-        if rng.random() < 0.5:
-            src, tgt = tgt, src
+    elif nd == 2 and r < 0.65:    # … whose long side does NOT span the axis and does not divide it: the consolidated read
+        pattern = "strips"        # chunk must be re-aligned (`_fix_copy_chunks`) with the first intermediate grid
+        shape = [rng.randint(12, 60), rng.randint(12, 60)]
+        a, b = rng.randint(1, 2), rng.randint(1, 2)
+        src, tgt = [rng.randint(3, shape[0] - 1), a], [b, shape[1] if rng.random() < 0.7 else rng.randint(3, shape[1] - 1)]
     else:
         src, tgt = gen_chunks(rng, shape, False), gen_chunks(rng, shape, False)
+    if pattern != "general" and rng.random() < 0.5:
+        shape, src, tgt = shape[::-1], src[::-1], tgt[::-1]
+    if pattern != "general" and rng.random() < 0.3:
+        src, tgt = tgt, src
     big = max(prod([min(c, n) for c, n in zip(src, shape)]), prod([min(c, n) for c, n in zip(tgt, shape)])) * 8
-    factor = rng.choice([5.2, 5.5, 6, 7, 8, 10, 12, 16, 30, 1000])
-    case = {"kind": "rechunk", "shape": shape, "src": src, "tgt": tgt, "irregular": rng.random() < 0.5,
+    factor = rng.choice([5.2, 5.5, 6, 6.25, 7, 8, 10] if pattern == "strips" else [5.2, 5.5, 6, 7, 8, 10, 12, 16, 30, 1000])
+    case = {"kind": "rechunk", "shape": shape, "src": src, "tgt": tgt, "irregular": rng.random() < (0.35 if pattern == "strips" else 0.5),
             "allowed_mem": int(big * factor), "pre": rng.random() < 0.3, "min_mem": None}
-    if rng.random() < (0.6 if thin else 0.3):
+    if rng.random() < (0.5 if pattern != "general" else 0.3):
         case["min_mem"] = max(8, (case["allowed_mem"] // 5) // rng.choice([2, 3, 4, 8]))
     return case
 
@@ -238,6 +247,12 @@ FIXED = [
     {"kind": "rechunk", "shape": [40, 30], "src": [40, 1], "tgt": [1, 30], "irregular": True, "allowed_mem": 4000, "pre": False, "min_mem": None},
     {"kind": "rechunk", "shape": [40, 30], "src": [40, 1], "tgt": [1, 30], "irregular": False, "allowed_mem": 4000, "pre": False, "min_mem": None},
     {"kind": "rechunk", "shape": [40, 30], "src": [7, 4], "tgt": [5, 9], "irregular": True, "allowed_mem": 8000, "pre": True, "min_mem": None},
+    # column strips that neither span nor divide the axis, tight budget => 3 regular stages; the first copy chunk must be
+    # re-aligned with the first intermediate grid ((26,2) -> (25,2) against stored chunk (5,2))
+    {"kind": "rechunk", "shape": [60, 60], "src": [26, 1], "tgt": [1, 60], "irregular": False, "allowed_mem": 3000, "pre": False, "min_mem": None},
+    {"kind": "rechunk", "shape": [60, 60], "src": [26, 1], "tgt": [1, 60], "irregular": True, "allowed_mem": 3000, "pre": False, "min_mem": None},
+    {"kind": "rechunk", "shape": [60, 60], "src": [1, 26], "tgt": [60, 1], "irregular": False, "allowed_mem": 3000, "pre": True, "min_mem": None},
+    {"kind": "rechunk", "shape": [50, 33], "src": [17, 2], "tgt": [2, 33], "irregular": False, "allowed_mem": 2800, "pre": False, "min_mem": 140},
     {"kind": "multi", "op": "qr", "shape": [8, 4], "chunks": [4, 4], "optimize": True},
     {"kind": "multi", "op": "unstack", "shape": [4, 6], "chunks": [2, 3], "axis": 0, "optimize": True},
 ]
@@ -747,7 +762,54 @@ def corr(ctx):
 # oracle / search
 # ---------------------------------------------------------------------------------------------------
 
+def plan_violations(case):
+    """stages of the real regular plan of `case` whose copy chunk is neither a multiple of the stored chunk nor spans
+    the axis (then some stored chunk necessarily has two partial writers: C05_store_single_writer_iff)"""
+    import cubed
+    import cubed.array_api as xp
+    from cubed.core.ops import _rechunk_plan
+    spec = cubed.Spec(allowed_mem=case["allowed_mem"], reserved_mem=0)
+    x = xp.empty(tuple(case["shape"]), chunks=tuple(case["src"]), spec=spec)
+    with warnings.catch_warnings():
+        warnings.simplefilter("ignore")
+        stages = list(_rechunk_plan(x, tuple(case["tgt"]), min_mem=case.get("min_mem"), allow_irregular=False))
+    bad = []
+    for i, (copy, target) in enumerate(stages):
+        for ax, (n, cc, tc) in enumerate(zip(case["shape"], copy, target)):
+            if not (min(cc, n) % min(tc, n) == 0 or cc >= n):
+                bad.append({"stage": i, "axis": ax, "copy": list(copy), "stored": list(target)})
+    return stages, bad
+
+
+def oracle_plans(ctx, n):
+    """plan-level sample (no execution, so two orders of magnitude more geometries than the traced runs): every stage of
+    every real regular plan must have copy chunks that are multiples of the stored chunks or span the axis; a violating
+    plan is executed under the tracing store to obtain the concrete two-writer chunk."""
+    lifted = 0
+    for _ in range(n):
+        case = gen_rechunk(ctx.rng)
+        case["irregular"] = False
+        case["pre"] = False
+        try:
+            stages, bad = plan_violations(case)
+        except Exception as e:  # noqa: BLE001 - refused geometry (chunk larger than the budget)
+            ctx.dist["plan:refused"] += 1
+            continue
+        ctx.count({"plan": case, "stages": len(stages)}, nontrivial=len(stages) > 1, kind="plan:stages%d" % min(len(stages), 5))
+        if bad and lifted < 5:
+            lifted += 1
+            case.update(order="reverse", xseed=0)
+            run = run_case(case)
+            ctx.traces += 1
+            fails = oracle_run(ctx, run)
+            if fails:
+                report(ctx, run, fails)
+            else:
+                ctx.disagree("planner invariant: copy chunk multiple of stored chunk or spans the axis", {"case": case, "stages": bad}, "holds", "violated")
+
+
 def oracle(ctx):
+    oracle_plans(ctx, ctx.budget(1500, 20000))
     for run in get_runs(ctx):
         report(ctx, run, oracle_run(ctx, run))
         if run.status.startswith("refused") and run.case["kind"] in ("chain", "multi"):
